@@ -151,7 +151,7 @@ def compare_with_ref(ref, impl, out, case, what="table differs from the StarTabl
                     # numpy's fixed-width string array drops trailing NUL characters (known finding F3)
                     out.fail("a text cell ending in NUL characters is not kept unchanged (the NULs are dropped)",
                              dict(case, column=j, row=i), {"k": "text", "v": got}, [kind, val], key="text_trailing_nul")
-                    return False
+                    continue        # recorded (F3); the other cells and the other checks of this grid go on
                 out.fail(what, dict(case, column=j, row=i), {"k": icol["k"], "v": got}, [kind, str(val)],
                          key="typing:" + ref["units"][j if ref["units"][j] in ("text", "onoff", "datetime") else j]
                          if False else "typing:" + (ref["units"][j] if ref["units"][j] in ("text", "onoff", "datetime") else "numeric"))
@@ -189,9 +189,14 @@ WF_NATIVE = {
 }
 
 
-def wf_grid(rng, native=False):
-    n_col = rng.choice([1, 1, 2, 3, 4])
-    n_row = rng.choice([0, 1, 2, 3, 5])
+LONG_COLUMN = [63, 64, 65, 127, 128, 129, 255, 256, 257, 999, 1000, 1001, 1024, 1025]
+_NAIVE_DT = None
+
+
+def wf_grid(rng, native=False, n_row=None):
+    n_col = rng.choice([1, 1, 2, 3, 4]) if rng.random() < 0.97 else rng.choice([6, 9, 17])
+    if n_row is None:
+        n_row = rng.choice([0, 1, 2, 3, 5])
     transposed = rng.random() < 0.45
     kinds = [rng.choice(["text", "onoff", "datetime", "num", "num"]) for _ in range(n_col)]
     names = []
@@ -204,11 +209,28 @@ def wf_grid(rng, native=False):
     def pad(s):
         return (rng.choice(["", " ", "\t", "  "]) + s + rng.choice(["", " ", "  "])) if rng.random() < 0.4 else s
 
-    def cell(k):
+    # one zone per datetime column (a column mixing UTC offsets, or zone-aware with naive values, is an input
+    # error): naive spellings only, or one offset spelling next to missing-value markers
+    def is_zoned(x):
+        import re
+        return isinstance(x, str) and re.search(r"(Z|z|[+-]\d\d:?\d\d)\s*$", x) is not None
+    zone_of = {}
+    for j, k in enumerate(kinds):
+        if k == "datetime":
+            zoned = [x for x in WF_SPELL["datetime"] if is_zoned(x)]
+            zone_of[j] = rng.choice(zoned) if rng.random() < 0.2 else None
+
+    def cell(k, j=None):
+        if k == "datetime" and j is not None:
+            if zone_of[j] is not None:
+                return zone_of[j] if rng.random() < 0.7 else rng.choice(["-", "nan", " NaN "])
+            if native and rng.random() < 0.6:
+                return rng.choice([x for x in WF_NATIVE[k] if not (isinstance(x, datetime.datetime) and x.tzinfo)])
+            return rng.choice([x for x in WF_SPELL[k] if not is_zoned(x)])
         if native and rng.random() < 0.6:
             return rng.choice(WF_NATIVE[k])
         return rng.choice(WF_SPELL[k])
-    data = [[cell(k) for k in kinds] for _ in range(n_row)]
+    data = [[cell(k, j) for j, k in enumerate(kinds)] for _ in range(n_row)]
     if transposed:
         # every value row needs a non-blank cell, else the reader stops there (DESIGN §3.5)
         for r in data:
@@ -217,7 +239,9 @@ def wf_grid(rng, native=False):
     name = rc.rand_text(rng, rc.NAME_ALPHA, 1, 5).rstrip("*") or "t"
     head = "**" + name + ("*" if transposed else "")
     dest = rng.choice(["all", "a b", " all ", "x a x", "your_farm my_farm"])
-    grid = [[head] + ([""] if rng.random() < 0.5 else []), [dest]]
+    # only the first cell of the first two rows means anything: further cells there are ignored
+    grid = [[head] + ([""] if rng.random() < 0.5 else []) + (["", "x", " "][: rng.randint(0, 3)] if rng.random() < 0.15 else []),
+            [dest] + (["", "all", "**z"][: rng.randint(1, 3)] if rng.random() < 0.15 else [])]
     if transposed:
         for j in range(n_col):
             line = [pad(names[j]), pad(units[j])] + [r[j] for r in data]
@@ -437,7 +461,12 @@ def run(tier, seed, model_ok, translator, search=False):
     n_c = 4000 if thorough else 500
     for i in range(n_c):
         native = rng.random() < 0.4
-        grid, info = wf_grid(rng, native)
+        # a few long columns per run (nothing may change at a column length: 128, 1000, 1024 …)
+        long_rows = None
+        if i < (len(LONG_COLUMN) if thorough else 4):
+            long_rows = LONG_COLUMN[i] if thorough else [129, 1001, rng.choice(LONG_COLUMN), rng.choice(LONG_COLUMN)][i]
+            out.count("c:long-column")
+        grid, info = wf_grid(rng, native, n_row=long_rows)
         case = {"seed": seed, "index": i, "stream": "c", "cells": grid_to_json(grid), "info": info, "native": native}
         check_wf(grid, info, native, case, i, out, rng, ops, pend, model_ok)
 
